@@ -95,3 +95,17 @@ func TestReplayC13PatternBacktick(t *testing.T) {
 		t.Errorf("pattern with backtick: C13 violated: pattern not applied")
 	}
 }
+
+func TestReplayC13DollarMessageInValues(t *testing.T) {
+	// "$message" is a placeholder of custom Rego blocks only; as a listed value or inside a pattern it is data
+	c13Run(t, "in value $message", "P", "v1", "msg", "$message", "msg")
+	p := "#%Validation Profile 1.0\nprofile: P\nviolation:\n  - v1\nvalidations:\n  v1:\n    targetClass: apiContract.WebAPI\n    message: msg\n    propertyConstraints:\n      core.name:\n        pattern: \"^[$]message$\"\n"
+	rep, err := Validate(p, c13Data, false, nil)
+	if err != nil {
+		t.Errorf("pattern mentioning $message: C13 violated: %v", strings.Split(err.Error(), "\n")[0])
+		return
+	}
+	if !strings.Contains(rep, `"resultMessage": "msg"`) {
+		t.Errorf("pattern mentioning $message: C13 violated: the validation's message is lost: %s", rep)
+	}
+}
